@@ -359,6 +359,9 @@ func runHubCase(c *h.Ctx, r *h.Report, o *gen.Oracle, cs hubCase, uuidGen *count
 	}
 	t := try(cs)
 	r.Evaluations += t.Evaluations
+	for k, v := range t.Distribution {
+		r.CountN(k, v)
+	}
 	if c.Replay != "" || (len(t.Violations) == 0 && len(t.Disagreements) == 0) {
 		for _, v := range t.Violations {
 			r.Violate(v)
